@@ -58,15 +58,37 @@ func c03GenScenario(t *rapid.T) simScenario {
 }
 
 func TestVerifC03CrashSweep(t *testing.T) {
-	rec := vfstat.New("C03CrashSweep")
+	c03Sweep(t, "C03CrashSweep", false)
+}
+
+// The same sweep over rounds whose staging bundle and right-edge data tile are several MiB
+// (70-100 entries with 64 KiB certificates): size-dependent limits of the recovery path.
+func TestVerifC03FatSweep(t *testing.T) {
+	c03Sweep(t, "C03FatSweep", true)
+}
+
+func c03Sweep(t *testing.T, name string, fat bool) {
+	rec := vfstat.New(name)
 	defer rec.Flush()
 	maxB, nC, maskBudget := 10, 1, 16
 	if vfstat.Thorough() {
 		maxB, nC, maskBudget = 1000, 3, 64
 	}
+	if fat {
+		maxB, nC, maskBudget = 3, 1, 4
+		if vfstat.Thorough() {
+			maxB, maskBudget = 12, 8
+		}
+	}
 	crashModes := []simMode{simCrashBefore, simCrashAfter}
 	rapid.Check(t, func(t *rapid.T) {
 		sc := c03GenScenario(t)
+		if fat {
+			sc.Fat = rapid.IntRange(70, 100).Draw(t, "fat")
+			if sc.Main < sc.Fat {
+				sc.Main = sc.Fat + rapid.IntRange(0, 3).Draw(t, "fatExtra")
+			}
+		}
 		salt := rapid.Uint64().Draw(t, "salt")
 		rnd := func() uint64 { salt = salt*6364136223846793005 + 1442695040888963407; return salt }
 		root, cleanup := simTempDir()
@@ -168,7 +190,11 @@ func TestVerifC03CrashSweep(t *testing.T) {
 			}
 			id := nextID
 			for k := 0; k < sc.Main; k++ {
-				c.submit(context.Background(), in, simMakeEntry(id, (id%2)|((id/2%2)<<2)|((id/4%2)<<4)), false)
+				shape := (id % 2) | ((id / 2 % 2) << 2) | ((id / 4 % 2) << 4)
+				if k < sc.Fat {
+					shape |= 2 << 5
+				}
+				c.submit(context.Background(), in, simMakeEntry(id, shape), false)
 				id++
 			}
 			c.w.clock += 1234
